@@ -230,10 +230,17 @@ pub fn gen_ordering(rng: &mut Prng, text_names: &[String]) -> OrderingSpec {
         "superset-after",
         "duplicates",
         "reversed",
+        "rotation",
     ]);
     match kind {
         "identity" => {}
         "reversed" => names.reverse(),
+        "rotation" => {
+            if !names.is_empty() {
+                let k = rng.below(names.len());
+                names.rotate_left(k);
+            }
+        }
         _ => rng.shuffle(&mut names),
     }
     if kind == "subset" && !names.is_empty() {
